@@ -159,7 +159,7 @@ func Decide(env *Env, cf *ClaimsFile, res *Result, replay func(o *Obl)) *Verdict
 			v.MissingClaims = append(v.MissingClaims, fmt.Sprintf("%s (have %d, need %d)", c.Match, counts[i], min))
 		}
 	}
-	rdir := filepath.Join(env.Verif, "replays", cf.Property)
+	rdir := filepath.Join(env.Out, "replays", cf.Property)
 	writeReplay := func(o *Obl) string {
 		os.MkdirAll(rdir, 0o755)
 		base := filepath.Join(rdir, sanitize(o.Name))
@@ -345,8 +345,8 @@ func WriteEvidence(env *Env, cf *ClaimsFile, res *Result, v *Verdict, wall time.
 	if err != nil {
 		return err
 	}
-	os.MkdirAll(filepath.Join(env.Verif, "evidence"), 0o755)
-	return os.WriteFile(filepath.Join(env.Verif, "evidence", cf.Property+".json"), b, 0o644)
+	os.MkdirAll(filepath.Join(env.Out, "evidence"), 0o755)
+	return os.WriteFile(filepath.Join(env.Out, "evidence", cf.Property+".json"), b, 0o644)
 }
 
 func dedup(xs []string) []string {
